@@ -207,7 +207,7 @@ func systematic() []*Prog {
 	add("two-errors", fn("f", A, aUse("a", 0), sUse("a", 0)), fn("g", A, call("nosuch")), begin(sUse("x", 0)))
 	add("two-type-errors", fn("f", A, aUse("a", 0), sUse("a", 0)), fn("g", A, sUse("a", 0), aUse("a", 0)))
 	// native (Go) functions
-	nat := []Native{{"nat1", 1, false}, {"nat2", 2, false}, {"natv", 1, true}, {"over", 1, false}}
+	nat := []Native{{"nat1", 1, false, ""}, {"nat2", 2, false, ""}, {"natv", 1, true, ""}, {"over", 1, false, ""}}
 	withNat := func(fam string, items ...Item) {
 		add(fam, items...).Natives = nat
 	}
@@ -222,6 +222,23 @@ func systematic() []*Prog {
 	withNat("native-param", fn("f", A, call("nat1", av("a"))), begin(aUse("x", 0), call("f", av("x"))))
 	withNat("native-expr", begin(call("nat2", ai("x"), ax("y", 0))))
 	withNat("native-as-variable", begin(sUse("nat1", 0)))
+	// Funcs entries that are not functions (nil, an int, a string, a slice): called and not called
+	for _, kind := range []string{"nil", "int", "string", "slice"} {
+		bad := []Native{{"nat1", 1, false, ""}, {"notf", 0, false, kind}, {"zz", 0, false, kind}}
+		withBad := func(fam string, items ...Item) { add(fam, items...).Natives = bad }
+		withBad("nonfunc-native-not-called", begin(call("nat1", av("x"))))
+		withBad("nonfunc-native-not-called", fn("f", A, aUse("a", 0)), begin(call("f", av("x"))))
+		withBad("nonfunc-native-called", begin(call("notf")))
+		withBad("nonfunc-native-called", begin(call("notf", av("x"), ak())))
+		withBad("nonfunc-native-called", begin(aUse("x", 0), call("zz", av("x"))))
+		withBad("nonfunc-native-called-in-function", fn("f", A, call("notf", av("a"))), begin(sUse("x", 0)))
+		withBad("nonfunc-native-called-nested", fn("f", A, sUse("a", 0)), begin(call("f", ac(call("zz", ak())))))
+		withBad("nonfunc-native-called-after-type-error", begin(aUse("x", 0), sUse("x", 0), call("notf")))
+		withBad("nonfunc-native-called-before-type-error", begin(call("notf"), aUse("x", 0), sUse("x", 0)))
+		withBad("nonfunc-native-overridden", fn("notf", A, aUse("a", 0)), begin(call("notf", av("x"))))
+		withBad("nonfunc-native-as-variable", begin(sUse("notf", 0), aUse("zz", 0)))
+		withBad("nonfunc-native-as-parameter", fn("f", []string{"notf"}, call("notf")), begin(call("f", ak())))
+	}
 	// multiple BEGIN / END / pattern-action items
 	add("multi-items", begin(aUse("x", 0)), begin(sUse("x", 0)))
 	add("multi-items", end(sUse("x", 0)), begin(aUse("x", 0)))
@@ -388,9 +405,12 @@ func randomProg(r *hx.Rand, maxF int, hostile, exec bool) *Prog {
 		p.Family = "random-exec"
 	}
 	if !exec && r.Intn(4) == 0 {
-		g.nats = []Native{{"nat1", 1, false}, {"nat2", 2, false}, {"natv", 1, true}}
+		g.nats = []Native{{"nat1", 1, false, ""}, {"nat2", 2, false, ""}, {"natv", 1, true, ""}}
 		if hostile && r.Intn(3) == 0 {
-			g.nats = append(g.nats, Native{"f0", 1, false})
+			g.nats = append(g.nats, Native{"f0", 1, false, ""})
+		}
+		if hostile && r.Intn(3) == 0 {
+			g.nats = append(g.nats, Native{"notf", 0, false, r.Pick([]string{"nil", "int", "string"})})
 		}
 		p.Natives = g.nats
 	}
